@@ -45,6 +45,7 @@ impl CliCase {
             }
             Format::Gambit => {
                 let st = if self.fancy { EfgStyle::random(&mut r) } else { EfgStyle::plain() };
+                let st = if self.game.stats().d() > 1e6 { st.exact_zero_sum() } else { st };
                 let EfgWritten { text, names, constant, slack } = to_efg(&self.game, &mut r, &st);
                 Written { bytes: text.into_bytes(), names, constant, slack }
             }
@@ -224,7 +225,9 @@ pub fn faithful(model_cli_names: &MNode, printed: &Printed, constant: f64, slack
         return Err(("cli-invalid-profile".into(), e));
     }
     let info = eval::evaluate(model_cli_names, &printed.profile);
-    let d = model_cli_names.stats().d().max(1.0);
+    // tolerance relative to the reach-weighted magnitude of the game (not to its payoff range:
+    // a huge payoff behind a tiny probability contributes order one)
+    let d = model_cli_names.mag().max(1.0);
     let tol = 1e-9 * d;
     let off = constant / 2.0;
     let near = |a: f64, b: f64, t: f64| (a - b).abs() <= t;
@@ -349,6 +352,9 @@ impl Prop for CliFaithful {
         m.add(if case.format == Format::Json { "files_json" } else { "files_gambit" }, 1);
         if w.constant != 0.0 {
             m.add("probe_constant_sum_nonzero", 1);
+        }
+        if case.game.stats().d() > 1e6 {
+            m.add("probe_lottery_game_tiny_probability_huge_payoff", 1);
         }
         if w.slack != 0.0 {
             m.add("probe_constant_sum_error_within_tolerance", 1);
